@@ -7,7 +7,7 @@
    (0 if removed else 1) + the number of iterators parked on it, and is at least 1; every parked iterator's node
    is linked in the bucket the iterator remembers. *)
 From Coq Require Import List NArith ZArith Bool Arith Lia Permutation.
-Require Import Verif.MapSpec Verif.MapHashModel Verif.MapRefModel Verif.MapRefProofs Verif.MapHashProofs2.
+Require Import Verif.MapSpec Verif.MapHashModel Verif.MapRefModel Verif.MapRefProofs Verif.MapHashProofs Verif.MapHashProofs2.
 Import ListNotations.
 
 Definition parked_on (id : nat) (hi : hiter) : bool :=
@@ -267,3 +267,294 @@ Proof.
   eapply same_ctl_trans; eauto.
 Qed.
 End Safe.
+
+(* ---------- the other operations ---------- *)
+Section Safe2.
+Variable hf : key -> N.
+
+Lemma goodp_store : forall s P id n n', GoodP s P -> In id (linked s) -> deref (h_heap s) id = Ok n ->
+  hn_ref n' = hn_ref n -> hn_removed n' = hn_removed n -> GoodP (set_heap s (store (h_heap s) id n')) P.
+Proof.
+  intros s P id n n' G Hin Hd Hr Hm. assert (Hlt : id < length (h_heap s)) by (eapply deref_lt; eauto).
+  constructor; simpl; try apply G.
+  intros x Hx. change (linked (set_heap s (store (h_heap s) id n'))) with (linked s) in Hx. rewrite deref_store by auto.
+  destruct (p_node _ _ G x Hx) as [m [M1 [M2 M3]]]. destruct (Nat.eqb id x) eqn:E.
+  - apply Nat.eqb_eq in E. subst x. rewrite Hd in M1. inversion M1; subst m. exists n'. unfold base in *. rewrite Hr, Hm. auto.
+  - exists m. auto.
+Qed.
+
+Lemma upd_overflow : forall {A} (l : list A) i x, length l <= i -> upd l i x = l.
+Proof. induction l; simpl; intros; auto. destruct i. lia. f_equal. apply IHl. lia. Qed.
+
+Lemma lookup_safe : forall s P k b, GoodP s P ->
+  exists r, find_node v_fixed (h_heap s) (bucket s b) k = Ok r /\
+    (forall id, r = Some id -> In id (bucket s b) /\ exists n, deref (h_heap s) id = Ok n /\ hn_removed n = false).
+Proof.
+  intros. apply find_node_safe. intros id Hid. apply (goodp_all_live _ _ H). eapply in_bucket_linked; eauto.
+Qed.
+
+Lemma get_safe : forall s P k, GoodP s P -> exists x, h_get v_fixed hf s k = Ok x.
+Proof.
+  intros. unfold h_get. destruct (lookup_safe s P k (bucket_ix hf s k) H) as [r [R1 R2]]. rewrite R1. simpl.
+  destruct r as [id|]; eauto. destruct (R2 id eq_refl) as [_ [n [N1 _]]]. rewrite N1. simpl. eauto.
+Qed.
+
+Lemma put_safe : forall s P k x, GoodP s P ->
+  exists s' ns, h_put v_fixed hf s k x = Ok (s', ns) /\ GoodP s' P /\ same_ctl s s'.
+Proof.
+  intros s P k x G. unfold h_put. destruct (lookup_safe s P k (bucket_ix hf s k) G) as [r [R1 R2]]. rewrite R1. simpl.
+  destruct r as [id|].
+  - destruct (R2 id eq_refl) as [Hin [n [N1 N2]]]. rewrite N1. simpl.
+    eexists _, _. split; [reflexivity|]. split; [|repeat split].
+    eapply goodp_store; eauto. eapply in_bucket_linked; eauto.
+  - set (b := bucket_ix hf s k). set (id := length (h_heap s)).
+    set (n := {| hn_key := k; hn_val := x; hn_ref := 1; hn_removed := false; hn_subs := [] |}).
+    eexists _, _. split; [reflexivity|]. split; [|repeat split].
+    assert (FR : forall y, In y (linked s) -> y < id).
+    { intros y Hy. destruct (p_node _ _ G y Hy) as [m [M1 _]]. eapply deref_lt; eauto. }
+    assert (PC : pcount P id = 0).
+    { unfold pcount. rewrite (filter_ext_in' _ (fun _ => false)). clear. induction P; simpl; auto.
+      intros hi Hhi. unfold parked_on. destruct (hi_node hi) as [y|] eqn:E; auto. apply Nat.eqb_neq. intro. subst y.
+      generalize (p_iter _ _ G hi id Hhi E). intro Q. apply in_bucket_linked in Q. apply FR in Q. lia. }
+    destruct (le_lt_dec (nb s) b) as [OV|LT].
+    + (* cannot happen for a table with buckets, but harmless: the node is simply not linked *)
+      unfold bucket. simpl. rewrite upd_overflow by exact OV.
+      constructor; simpl.
+      * apply (p_nodup _ _ G).
+      * intros y Hy. change (In y (linked s)) in Hy. destruct (p_node _ _ G y Hy) as [m [M1 M2]]. exists m. split; auto.
+        rewrite deref_app; auto; eapply deref_lt; eauto.
+      * intros hi y Hhi Hn. apply (p_iter _ _ G hi y Hhi Hn).
+    + assert (LK : forall y, In y (concat (upd (h_buckets s) b (nth b (h_buckets s) [] ++ [id]))) <-> y = id \/ In y (linked s)).
+      { intros. rewrite linked_put_new by exact LT. unfold linked. rewrite (concat_split (h_buckets s) b) by exact LT.
+        rewrite ?in_app_iff. simpl. rewrite ?in_app_iff. intuition congruence. }
+      constructor; simpl.
+      * unfold linked, bucket. simpl. fold b. fold id. rewrite linked_put_new by exact LT.
+        apply (Permutation_NoDup (l := id :: linked s)).
+        { unfold linked. rewrite (concat_split (h_buckets s) b) at 1 by exact LT. rewrite app_assoc. apply Permutation_middle. }
+        constructor. intro Q. apply FR in Q. lia. apply (p_nodup _ _ G).
+      * intros y Hy. unfold linked, bucket in Hy. simpl in Hy. fold b in Hy. fold id in Hy. apply LK in Hy. destruct Hy as [Hy|Hy].
+        { subst y. exists n. fold id. rewrite deref_app_new. rewrite PC. simpl. auto. }
+        { destruct (p_node _ _ G y Hy) as [m [M1 M2]]. exists m. split; auto. rewrite deref_app; auto; apply FR; auto. }
+      * intros hi y Hhi Hn. generalize (p_iter _ _ G hi y Hhi Hn). unfold bucket. simpl. fold b. fold id. rewrite nth_upd.
+        intro Q. destruct (Nat.eqb b (hi_bucket hi) && Nat.ltb b (length (h_buckets s))) eqn:E; auto.
+        apply andb_true_iff in E. destruct E as [E _]. apply Nat.eqb_eq in E. rewrite <- E in Q. apply in_or_app. auto.
+Qed.
+
+Lemma rm_safe : forall s P k, GoodP s P ->
+  exists s' b ns, h_rm v_fixed hf s k = Ok (s', b, ns) /\ GoodP s' P /\ same_ctl s s'.
+Proof.
+  intros s P k G. unfold h_rm. set (b := bucket_ix hf s k). destruct (lookup_safe s P k b G) as [r [R1 R2]]. rewrite R1. simpl.
+  destruct r as [id|].
+  2:{ eexists _, _, _. split; [reflexivity|]. split; [auto|repeat split]. }
+  destruct (R2 id eq_refl) as [Hin [n [N1 N2]]]. rewrite N1. simpl.
+  assert (Hl : In id (linked s)) by (eapply in_bucket_linked; eauto).
+  assert (Hlt : id < length (h_heap s)) by (eapply deref_lt; eauto).
+  (* the presence reference behaves like one more parked iterator on the (now removed) node *)
+  set (n1 := {| hn_key := hn_key n; hn_val := hn_val n; hn_ref := hn_ref n; hn_removed := true; hn_subs := hn_subs n |}).
+  assert (G1 : GoodP (set_heap s (store (h_heap s) id n1)) ({| hi_node := Some id; hi_bucket := b |} :: P)).
+  { constructor; simpl.
+    - apply (p_nodup _ _ G).
+    - intros y Hy. change (In y (linked s)) in Hy. rewrite deref_store by auto. rewrite pcount_cons. unfold parked_on. simpl.
+      destruct (p_node _ _ G y Hy) as [m [M1 [M2 M3]]]. destruct (Nat.eqb id y) eqn:E.
+      + apply Nat.eqb_eq in E. subst y. rewrite N1 in M1. inversion M1; subst m. exists n1. split; auto.
+        unfold base in *. simpl. rewrite N2 in M2. split; auto; try lia.
+      + exists m. auto.
+    - intros hi y [Hhi|Hhi] Hn. subst hi. simpl in *. inversion Hn; subst. exact Hin. apply (p_iter _ _ G hi y Hhi Hn). }
+  destruct (goodp_unpark _ _ _ id G1 eq_refl) as [s2 [ns [U1 [U2 U3]]]]. rewrite U1. simpl.
+  eexists _, _, _. split; [reflexivity|]. split.
+  - constructor; simpl; apply U2.
+  - exact U3.
+Qed.
+
+Lemma notify_add_safe : forall e1 e2 e3 s P k fn ev ud, GoodP s P ->
+  exists s' z, h_notify_add v_fixed hf e1 e2 e3 s k fn ev ud = Ok (s', z) /\ GoodP s' P /\ same_ctl s s'.
+Proof.
+  intros. unfold h_notify_add. destruct k as [kk|].
+  - destruct (has_bit ev EV_FREE). { eexists _, _. split; [reflexivity|]. split; [auto|repeat split]. }
+    destruct (lookup_safe s P kk (bucket_ix hf s kk) H) as [r [R1 R2]]. rewrite R1. simpl.
+    destruct r as [id|]. 2:{ eexists _, _. split; [reflexivity|]. split; [auto|repeat split]. }
+    destruct (R2 id eq_refl) as [Hin [n [N1 N2]]]. rewrite N1. simpl.
+    destruct (nsub_conflict (hn_subs n) fn ev ud). { eexists _, _. split; [reflexivity|]. split; [auto|repeat split]. }
+    eexists _, _. split; [reflexivity|]. split; [|repeat split]. eapply goodp_store; eauto. eapply in_bucket_linked; eauto.
+  - destruct (nsub_conflict (h_subs s) fn ev ud). { eexists _, _. split; [reflexivity|]. split; [auto|repeat split]. }
+    eexists _, _. split; [reflexivity|]. split; [|repeat split]. constructor; simpl; apply H.
+Qed.
+
+Lemma notify_del_safe : forall e2 s P k fn ev ud, GoodP s P ->
+  exists s' z, h_notify_del v_fixed hf e2 s k fn ev ud = Ok (s', z) /\ GoodP s' P /\ same_ctl s s'.
+Proof.
+  intros. unfold h_notify_del. destruct k as [kk|].
+  - destruct (lookup_safe s P kk (bucket_ix hf s kk) H) as [r [R1 R2]]. rewrite R1. simpl.
+    destruct r as [id|]. 2:{ eexists _, _. split; [reflexivity|]. split; [auto|repeat split]. }
+    destruct (R2 id eq_refl) as [Hin [n [N1 N2]]]. rewrite N1. simpl.
+    destruct (existsb (nsub_match fn ev ud) (hn_subs n)). 2:{ eexists _, _. split; [reflexivity|]. split; [auto|repeat split]. }
+    eexists _, _. split; [reflexivity|]. split; [|repeat split]. eapply goodp_store; eauto. eapply in_bucket_linked; eauto.
+  - destruct (existsb (nsub_match fn ev ud) (h_subs s)). 2:{ eexists _, _. split; [reflexivity|]. split; [auto|repeat split]. }
+    eexists _, _. split; [reflexivity|]. split; [|repeat split]. constructor; simpl; apply H.
+Qed.
+
+(* destroy: every node is dereferenced once; nothing is touched after it was freed *)
+Lemma destroy_nodes_safe : forall l s, NoDup l ->
+  (forall id, In id l -> exists n, deref (h_heap s) id = Ok n /\ 1 <= hn_ref n) ->
+  exists s' ns, destroy_nodes s l = Ok (s', ns).
+Proof.
+  induction l; simpl; intros s ND H. eauto.
+  inversion ND; subst. destruct (H a) as [n [N1 N2]]. left; auto.
+  assert (Hlt : a < length (h_heap s)) by (eapply deref_lt; eauto).
+  unfold node_deref. rewrite N1. simpl. destruct (hn_ref n) as [|r] eqn:R. lia.
+  destruct r.
+  - simpl. match goal with |- context [destroy_nodes ?st l] => destruct (IHl st) as [s' [ns E]]; auto end.
+    { intros id Hid. assert (id <> a) by (intro; subst; contradiction). destruct (H id) as [m M]. right; auto. exists m.
+      simpl. unfold deref. rewrite nth_error_free_cell by auto. rewrite nth_error_store_other by auto. exact M. }
+    rewrite E. simpl. eauto.
+  - simpl. match goal with |- context [destroy_nodes ?st l] => destruct (IHl st) as [s' [ns E]]; auto end.
+    { intros id Hid. assert (id <> a) by (intro; subst; contradiction). destruct (H id) as [m M]. right; auto. exists m.
+      simpl. unfold deref. rewrite nth_error_store_other by auto. exact M. }
+    rewrite E. simpl. eauto.
+Qed.
+
+Lemma destroy_safe : forall s P, GoodP s P -> exists s' ns, h_destroy s = Ok (s', ns) /\ h_alive s' = false.
+Proof.
+  intros. unfold h_destroy. destruct (destroy_nodes_safe (concat (h_buckets s)) s (p_nodup _ _ H)) as [s' [ns E]].
+  { intros id Hid. destruct (p_node _ _ H id Hid) as [n [N1 [N2 N3]]]. eauto. }
+  rewrite E. simpl. eauto.
+Qed.
+End Safe2.
+
+(* ---------- all histories ---------- *)
+Definition its (s : hstate) : list hiter := map snd (h_iters s).
+Record Top (s : hstate) : Prop := {
+  t_good : GoodP s (its s);
+  t_ids : NoDup (map fst (h_iters s));
+  t_used : incl (map fst (h_iters s)) (h_used s)
+}.
+Definition TopInv (s : hstate) : Prop := h_alive s = false \/ Top s.
+
+Lemma iter_split : forall l it hi, iter_lookup l it = Some hi ->
+  exists l1 l2, l = l1 ++ (it, hi) :: l2 /\ ~ In it (map fst l1).
+Proof.
+  induction l as [|[i h] l]; simpl; intros. discriminate.
+  destruct (Nat.eqb i it) eqn:E.
+  - apply Nat.eqb_eq in E. subst. inversion H; subst. exists [], l. split; auto.
+  - destruct (IHl it hi H) as [l1 [l2 [Q1 Q2]]]. exists ((i, h) :: l1), l2. subst. split; auto.
+    simpl. intros [Q|Q]; auto. subst. rewrite Nat.eqb_refl in E. discriminate.
+Qed.
+
+Lemma iter_set_split : forall l1 l2 it hi hi', ~ In it (map fst l1) -> ~ In it (map fst l2) ->
+  iter_set (l1 ++ (it, hi) :: l2) it hi' = l1 ++ (it, hi') :: l2 /\ iter_remove (l1 ++ (it, hi) :: l2) it = l1 ++ l2.
+Proof.
+  intros. unfold iter_set, iter_remove. rewrite map_app, filter_app. simpl. rewrite Nat.eqb_refl. simpl.
+  assert (A : forall l, ~ In it (map fst l) ->
+              map (fun p : nat * hiter => if Nat.eqb (fst p) it then (it, hi') else p) l = l /\
+              filter (fun p : nat * hiter => negb (Nat.eqb (fst p) it)) l = l).
+  { induction l as [|[i h] l]; simpl; intros; auto. destruct (Nat.eqb i it) eqn:E.
+    - apply Nat.eqb_eq in E. subst. exfalso. apply H1. left; auto.
+    - simpl. destruct IHl as [I1 I2]. intro. apply H1. right; auto. rewrite I1, I2. auto. }
+  destruct (A l1 H) as [A1 A2]. destruct (A l2 H0) as [B1 B2]. rewrite A1, A2, B1, B2. auto.
+Qed.
+
+Lemma goodp_ctl : forall s s' P, h_heap s' = h_heap s -> h_buckets s' = h_buckets s -> GoodP s P -> GoodP s' P.
+Proof.
+  intros. destruct H1 as [A B C]. constructor.
+  - unfold linked in *. rewrite H0. auto.
+  - intros id Hid. unfold linked in *. rewrite H0 in Hid. rewrite H. auto.
+  - intros hi id Hhi Hn. unfold bucket. rewrite H0. apply C; auto.
+Qed.
+
+Section Run.
+Variable hf : key -> N.
+Variable rc : Z * Z * Z.
+
+Lemma top_same : forall s s', Top s -> GoodP s' (its s) -> same_ctl s s' -> TopInv s'.
+Proof.
+  intros s s' T G [C1 [C2 C3]]. right. constructor.
+  - unfold its. rewrite C1. exact G.
+  - rewrite C1. apply (t_ids _ T).
+  - rewrite C1, C2. apply (t_used _ T).
+Qed.
+
+Theorem hash_step_safe : forall s o, TopInv s ->
+  match h_step v_fixed hf rc s o with
+  | Ok (s', _, _) => TopInv s'
+  | Err e => e = OutOfFuel
+  end.
+Proof.
+  intros s o [D|T]; destruct rc as [[e1 e2] e3]; unfold h_step.
+  - rewrite D. simpl. left; auto.
+  - destruct (h_alive s) eqn:A; simpl. 2:{ left; auto. }
+    destruct o.
+    + destruct (put_safe hf s (its s) k v (t_good _ T)) as [s' [ns [E [G C]]]]. rewrite E. simpl. eapply top_same; eauto.
+    + destruct (get_safe hf s (its s) k (t_good _ T)) as [x E]. rewrite E. simpl. right; auto.
+    + destruct (rm_safe hf s (its s) k (t_good _ T)) as [s' [b [ns [E [G C]]]]]. rewrite E. simpl. eapply top_same; eauto.
+    + right; auto.
+    + generalize (foreach_safe s (its s) stop (t_good _ T)).
+      destruct (h_foreach v_fixed s stop) as [[[s' l] ns]|e]; simpl; auto. intros [G C]. eapply top_same; eauto.
+    + destruct (notify_add_safe hf e1 e2 e3 s (its s) k fn ev ud (t_good _ T)) as [s' [z [E [G C]]]]. rewrite E. simpl. eapply top_same; eauto.
+    + destruct (notify_del_safe hf e2 s (its s) k fn ev ud (t_good _ T)) as [s' [z [E [G C]]]]. rewrite E. simpl. eapply top_same; eauto.
+    + destruct (destroy_safe s (its s) (t_good _ T)) as [s' [ns [E D]]]. rewrite E. simpl. left. exact D.
+    + destruct (existsb (Nat.eqb it) (h_used s)) eqn:U. right; auto.
+      right. constructor; simpl.
+      * unfold its. simpl. eapply goodp_ctl. 3:{ apply goodp_none_add. apply (t_good _ T). } reflexivity. reflexivity.
+      * constructor. 2: apply (t_ids _ T). intro Q. apply (t_used _ T) in Q.
+        assert (existsb (Nat.eqb it) (h_used s) = true) by (apply existsb_exists; exists it; split; auto; apply Nat.eqb_refl). congruence.
+      * intros x [Hx|Hx]. left; auto. right. apply (t_used _ T); auto.
+    + destruct (iter_lookup (h_iters s) it) as [hi|] eqn:L. 2:{ right; auto. }
+      destruct (iter_split _ _ _ L) as [l1 [l2 [Q1 Q2]]].
+      assert (Q3 : ~ In it (map fst l2)).
+      { generalize (t_ids _ T). rewrite Q1, map_app. simpl. intro ND. apply nodup_app_r in ND. inversion ND; auto. }
+      assert (PM : Permutation (its s) (hi :: map snd l1 ++ map snd l2)).
+      { unfold its. rewrite Q1, map_app. simpl. apply Permutation_sym. apply Permutation_middle. }
+      destruct (iter_next_safe s (map snd l1 ++ map snd l2) hi (goodp_perm _ _ _ PM (t_good _ T))) as [s1 [hi1 [r [ns [E [G [C1 [C2 C3]]]]]]]].
+      rewrite E. simpl. right. rewrite C1, Q1. destruct (iter_set_split l1 l2 it hi hi1 Q2 Q3) as [S1 _]. rewrite S1.
+      constructor; simpl.
+      * unfold its. simpl. rewrite map_app. simpl. eapply goodp_ctl. 3:{ eapply goodp_perm. apply Permutation_middle. exact G. } reflexivity. reflexivity.
+      * generalize (t_ids _ T). rewrite Q1, !map_app. simpl. auto.
+      * rewrite C2. generalize (t_used _ T). rewrite Q1, !map_app. simpl. auto.
+    + destruct (iter_lookup (h_iters s) it) as [hi|] eqn:L. 2:{ right; auto. }
+      destruct (iter_split _ _ _ L) as [l1 [l2 [Q1 Q2]]].
+      assert (Q3 : ~ In it (map fst l2)).
+      { generalize (t_ids _ T). rewrite Q1, map_app. simpl. intro ND. apply nodup_app_r in ND. inversion ND; auto. }
+      assert (PM : Permutation (its s) (hi :: map snd l1 ++ map snd l2)).
+      { unfold its. rewrite Q1, map_app. simpl. apply Permutation_sym. apply Permutation_middle. }
+      destruct (iter_free_safe s (map snd l1 ++ map snd l2) hi (goodp_perm _ _ _ PM (t_good _ T))) as [s1 [ns [E [G [C1 [C2 C3]]]]]].
+      rewrite E. simpl. right. rewrite C1, Q1. destruct (iter_set_split l1 l2 it hi hi Q2 Q3) as [_ S2]. rewrite S2.
+      constructor; simpl.
+      * unfold its. simpl. rewrite map_app. eapply goodp_ctl. 3: exact G. reflexivity. reflexivity.
+      * generalize (t_ids _ T). rewrite Q1, !map_app. simpl. intro ND. apply NoDup_remove_1 in ND. auto.
+      * rewrite C2. intros x Hx. apply (t_used _ T). rewrite Q1, !map_app. rewrite map_app in Hx. simpl.
+        apply in_app_or in Hx. apply in_or_app. destruct Hx; auto. right. right. auto.
+Qed.
+
+Lemma top_create : forall m, TopInv (h_create m).
+Proof.
+  intros. right. assert (L : linked (h_create m) = []) by (unfold linked, h_create; simpl; apply concat_repeat_nil).
+  constructor; simpl; try constructor.
+  - rewrite L. constructor.
+  - rewrite L. intros id [].
+  - intros hi id [].
+  - intros x [].
+Qed.
+
+(* C18, first clause, pointer-level hashtable model: for EVERY history the run never reaches UseAfterFree,
+   OutOfBounds or RefUnderflow; the only error the statement leaves open is the model's own fuel bound of
+   qb_map_foreach (excluded for iterator-free histories by C17_hashtable_no_error) *)
+Theorem hash_c18_safe_from : forall ops s, TopInv s ->
+  match snd (h_run v_fixed hf rc s ops) with None => True | Some e => e = OutOfFuel end.
+Proof.
+  induction ops; simpl; intros; auto.
+  generalize (hash_step_safe s a H). destruct (h_step v_fixed hf rc s a) as [[[s' x] ns]|e]; simpl; auto.
+  intro T. specialize (IHops s' T). destruct (h_run v_fixed hf rc s' ops). simpl in *. auto.
+Qed.
+
+Theorem hash_c18_safe : forall m ops,
+  match snd (h_run v_fixed hf rc (h_create m) ops) with None => True | Some e => e = OutOfFuel end.
+Proof. intros. apply hash_c18_safe_from. apply top_create. Qed.
+End Run.
+
+Lemma c18_example_state :
+  match h_state_after v_fixed MapHashProofs.hf8 rc_consts (h_create 8%N)
+          [Put MapHashProofs.ka 1%N; IterCreate 0 None; IterNext 0; Rm MapHashProofs.ka] with
+  | Ok s => pcount (its s) 0 = 1 /\ exists n, deref (h_heap s) 0 = Ok n /\ hn_removed n = true /\ hn_ref n = 1
+  | Err _ => False
+  end.
+Proof. vm_compute. split; auto. eexists. split; [reflexivity|]. split; reflexivity. Qed.
